@@ -142,4 +142,15 @@ open OpcuaVerif.Generated.CryptoPolicy in
 theorem model_matches_source (p : Policy) : p.minMax? = lookup asymKeyLen p.rustName := by
   cases p <;> decide +kernel
 
+open OpcuaVerif.Generated.CryptoPolicy in
+/-- the statuses exempt from being stored in `rejected/`, and the sequence of conditions and returns of `validate_application_instance_cert`, are the ones the table model copies
+(regenerated from the source on every check; the right-hand sides are the shapes the model was
+written from — a change of a guard, an argument order or a condition breaks this obligation) -/
+theorem source_shape :
+    lookup shape "reject.not_stored_for" = some "StatusCode::BadUnexpectedError|StatusCode::BadSecurityChecksFailed" ∧
+    lookup shape "validate.returns_in_order" = some "StatusCode::BadUnexpectedError|StatusCode::BadSecurityChecksFailed|StatusCode::BadUnexpectedError|StatusCode::BadCertificateUntrusted|StatusCode::BadUnexpectedError|StatusCode::BadSecurityChecksFailed|StatusCode::BadSecurityChecksFailed|StatusCode::Good|status_code|status_code|status_code" ∧
+    lookup shape "validate.conditions_in_order" = some "!cert_path.exists()|cert_path.exists()|!cert_path.exists()|!cert_path.exists()|self.trust_unknown_certs|!CertificateStore::ensure_cert_and_file_are_the_same(cert,&cert_path)|!security_policy.is_valid_keylength(key_length)|self.skip_verify_certs|self.check_time|status_code.is_bad()|letSome(hostname)=hostname|status_code.is_bad()|letSome(application_uri)=application_uri|status_code.is_bad()" ∧
+    lookup shape "keylength.range" = some "keylength>=min_max.0&&keylength<=min_max.1" := by
+  decide +kernel
+
 end OpcuaVerif.C18
